@@ -66,6 +66,9 @@ def jQuery (j : Json) : Except String Query := do
   | [.str "q", .str "rhs", v, t] => pure (.rhs (← jOpt (jList jRat) v) (← jRat t))
   | [.str "q", .str "fluxes", v, t] => pure (.fluxes (← jOpt (jList jRat) v) (← jRat t))
   | [.str "q", .str "call", t, v] => pure (.call (← jRat t) (← jList jRat v))
+  | [.str "q", .str "stoich", v, t] => pure (.stoich (← jOpt (jList jRat) v) (← jRat t))
+  | [.str "q", .str "stoichvar", x, v, t] =>
+      pure (.stoichvar (← jStr x) (← jOpt (jList jRat) v) (← jRat t))
   | _ => .error s!"bad query {j.compress}"
 
 def jHOp (j : Json) : Except String HOp := do
@@ -97,6 +100,7 @@ def ansJ (q : Query) : Except Err Ans → Json
     Json.mkObj [("ok", assocJ ratJ l)]
   | .ok (.rats l) => Json.mkObj [("ok", ratsJ l)]
   | .ok (.classes p v) => Json.mkObj [("ok", Json.arr #[strsJ p, strsJ v])]
+  | .ok (.table l) => Json.mkObj [("ok", assocJ (assocJ ratJ) l)]
 
 def keysJ (c : Content) : Json :=
   .arr #[strsJ (omKeys c.vars), strsJ (omKeys c.pars), strsJ (omKeys c.derived), strsJ (omKeys c.readouts),
